@@ -680,12 +680,72 @@ func c03Run(sc c03Scenario) (vs []ev.V) {
 				}
 			}
 		} else {
+			// what every delivery of the window did, per target
+			type took struct{ commitOK, body, bodyOK, partial bool; rcpts map[string]bool; statusErr map[string]bool }
+			byTgt := map[string]*took{}
+			anyBody, anyCommitErr := false, false
+			for _, e := range win {
+				tk := byTgt[e.Tgt]
+				if tk == nil {
+					tk = &took{rcpts: map[string]bool{}, statusErr: map[string]bool{}}
+					byTgt[e.Tgt] = tk
+				}
+				switch e.Op {
+				case "rcpt":
+					if e.Err == "" {
+						tk.rcpts[e.Arg] = true
+					}
+				case "body":
+					tk.body, tk.bodyOK, anyBody = true, e.Err == "", true
+				case "status":
+					tk.partial = true
+					if e.Err != "" {
+						tk.statusErr[e.Arg] = true
+					}
+				case "commit":
+					tk.commitOK = e.Err == ""
+					if e.Err != "" {
+						anyCommitErr = true
+					}
+				}
+			}
+			// delivered(tg, r): the target was committed holding r, and nothing it reported itself says r failed
+			delivered := func(tg, clean string) (bool, string) {
+				tk := byTgt[tg]
+				if tk == nil || !tk.commitOK || !tk.rcpts[clean] {
+					return false, ""
+				}
+				if !tk.body {
+					return true, "committed-without-body"
+				}
+				if !tk.bodyOK {
+					return true, "committed-after-failed-body"
+				}
+				return !tk.statusErr[clean], "target-succeeded"
+			}
 			for i, f := range tx.Final {
 				if i >= len(tx.Accepted) {
 					break
 				}
 				r := tx.Accepted[i]
 				clean, _ := address.CleanDomain(r)
+				tgs := c03Targets(sc, r)
+				if !anyCommitErr && len(tgs) > 0 {
+					all, some, how := true, false, ""
+					for _, tg := range tgs {
+						d, h := delivered(tg, clean)
+						all = all && d && h == "target-succeeded"
+						if d {
+							some, how = true, h
+						}
+					}
+					if f.Code/100 != 2 && all {
+						vs = append(vs, ev.Vf("reply:lmtp-failure-but-own-target-delivered", "transaction %d: recipient %s answered %d although its target(s) %v took the message and committed\n%s", ti, r, f.Code, tgs, dialog))
+					}
+					if f.Code/100 != 2 && some && (len(tgs) == 1 || !anyBody) && how != "target-succeeded" {
+						vs = append(vs, ev.Vf("reply:lmtp-refused-but-committed:"+how, "transaction %d: recipient %s answered %d (refused before the commit step) but target(s) %v were committed (%s)\n%s", ti, r, f.Code, tgs, how, dialog))
+					}
+				}
 				if f.Code/100 == 2 {
 					for _, tg := range c03Targets(sc, r) {
 						if !committed[tg][clean] || statusErr[tg+"|"+clean] {
@@ -697,6 +757,56 @@ func c03Run(sc c03Scenario) (vs []ev.V) {
 							}
 							vs = append(vs, ev.Vf("reply:lmtp-success-without-commit:"+shape, "transaction %d: recipient %s answered %d but target %s did not commit it (status error: %v)\n%s", ti, r, f.Code, tg, statusErr[tg+"|"+clean], dialog))
 						}
+					}
+				}
+			}
+		}
+	}
+	// (b') nothing is committed for a recipient the client was told is refused
+	for ti, tx := range res.Txs {
+		if tx.Ended != "data" {
+			continue
+		}
+		acc := map[string]bool{}
+		for _, r := range tx.Accepted {
+			if clean, err := address.CleanDomain(r); err == nil {
+				acc[clean] = true
+			}
+		}
+		win := c03Window(events, tx)
+		held := map[int][]string{}
+		refusedBy := map[string]string{} // address -> target that refused it (start or rcpt stage)
+		var lastRcptArg string
+		for _, e := range win {
+			switch e.Op {
+			case "rcpt":
+				lastRcptArg = e.Arg
+				if e.Err == "" {
+					held[e.Deliv] = append(held[e.Deliv], e.Arg)
+				} else {
+					refusedBy[e.Arg] = e.Tgt
+				}
+			case "start":
+				if e.Err != "" && lastRcptArg != "" {
+					refusedBy[lastRcptArg] = e.Tgt // Start runs on behalf of the recipient being added
+				}
+			case "commit":
+				if e.Err != "" {
+					continue
+				}
+				for _, r := range held[e.Deliv] {
+					if !acc[r] {
+						shape := "other"
+						if tg, ok := refusedBy[r]; ok && tg != e.Tgt {
+							shape = "recipient-refused-by-a-later-target-stays-on-the-earlier-one"
+						}
+						if shape != "other" {
+							// the pipeline's non-atomic AddRcpt over several targets: listed as a known finding under C09
+							// (the pipeline reports a result for a recipient it refused); here only counted
+							ev.Get("C03").AddExtra("observed_not_asserted_refused_recipient_kept_by_earlier_target", 1)
+							continue
+						}
+						vs = append(vs, ev.Vf("reply:refused-recipient-committed:"+shape, "transaction %d: RCPT %s was refused, yet target %s was committed holding it\n%s", ti, r, e.Tgt, dialog))
 					}
 				}
 			}
